@@ -40,7 +40,7 @@ func faultChoices(meth string) []int {
 	if meth == "get" || meth == "getc" {
 		return []int{14, 13, 5}
 	}
-	return []int{14, 13, 4}
+	return []int{14, 13, 4, 1}
 }
 
 // positions lists every call the fault-free run made, as "side meth idx".
@@ -98,7 +98,7 @@ func driveA(run *hx.Run, model *hx.Model, u *universe) {
 // exhaustiveA: all placements of two keys x all sequences of two operations x
 // the modelled strategies, fault-free and with every single call failing.
 func exhaustiveA(run *hx.Run, model *hx.Model, u *universe) {
-	ops := []string{"get 0", "get 1", "getc 0", "put 0 0", "fm 0 1", "fm 1", "caps"}
+	ops := []string{"get 0", "get 1", "getc 0", "put 0 0", "cput 0 0 B", "fm 0 1", "fm 1", "caps"}
 	wheres := []string{"A", "B", "AB", "-"}
 	strats := [][2]string{{"local", "local"}, {"noop", "noop"}}
 	if run.Thorough() {
